@@ -1,7 +1,8 @@
 (* C17: the ring-buffer model (Model/Buffer.v) refines the bounded sequence of
    Spec/BufSpec.v.  Abstraction: the [ln] cells starting at [en], cyclically. *)
 From Coq Require Import ZArith List Bool Lia ZifyBool.
-From PushModel Require Import Base.Sx Base.Machine Base.ListOps Model.Buffer Spec.BufSpec Model.BufferMachine.
+From PushModel Require Import Base.Sx Base.Machine Base.ListOps Model.Buffer Spec.BufSpec Model.BufferMachine
+  Suites.SBuffer.
 Import ListNotations.
 Open Scope Z_scope.
 
@@ -613,3 +614,27 @@ Section BufferRefine.
   Qed.
 
 End BufferRefine.
+
+(* ------------------------------------------------------------- wire suite *)
+Lemma bop_wf_b_sound : forall ops : list (bop Z), forallb bop_wf_b ops = true -> Forall bop_wf ops.
+Proof.
+  induction ops as [|o r IH]; intros H; [constructor|].
+  cbn [forallb] in H. apply andb_prop in H as [H1 H2].
+  constructor; [|apply IH; exact H2].
+  destruct o; cbn [bop_wf bop_wf_b] in *; try exact I; lia.
+Qed.
+
+(* On every case inside the quantifier the suite's model result IS the
+   specification's result (so "implementation = model" and "the predicate holds
+   on the implementation's output" coincide there). *)
+Lemma buffer_result_is_spec p k c ops :
+  1 <= c -> cap_ok k c -> forallb bop_wf_b ops = true ->
+  sx_res sx_buffer_payload (buffer_result p k c ops) = buffer_expected k c ops.
+Proof.
+  intros Hc Hk Hw. apply bop_wf_b_sound in Hw.
+  destruct (brun_refines 0 p ops (b_new 0 k c) (inv_new 0 k c Hc) Hk Hw) as (b' & E & I' & C' & K' & A').
+  cbn [cap knd b_new] in *. rewrite (babs_new 0) in *.
+  unfold buffer_result, buffer_expected. rewrite E. cbn [rbind fst snd].
+  rewrite (iter_ok 0); [|exact I'|rewrite C'; exact (cap_ok_max32 _ _ Hk)].
+  cbn [rbind sx_res]. rewrite A'. reflexivity.
+Qed.
